@@ -404,7 +404,7 @@ Example C02_about_to_change_writer_example :
   map (PropDefs.values (PropDefs.run fn true 8 (ops1 ++ ops2))) [0; 1; 2] = [Some 7%Z; Some 5%Z; Some 12%Z].
 Proof. vm_compute. repeat split; reflexivity. Qed.
 
-(* ... and, as in section 9, also when everything is interleaved in ANY order: new properties, observers of every kind above, reset(), immediate bindings of fresh properties, of existing unbound ones (which may have readers and observers, but no writing observer of valueAboutToChange) and of bound ones (rebinding), fresh immediately
+(* ... and, as in section 9, also when everything is interleaved in ANY order: new properties, observers of every kind above, reset(), immediate bindings of fresh properties, of existing unbound ones (which may have readers and observers, but no writing observer of valueAboutToChange) and of bound ones (rebinding), move construction of any property (its observers, writing ones included, move with it), fresh immediately
    bound properties, assignments (the growth lemmas once more, with `writing observers of both signals allowed`; a freshly created
    property has no valueAboutToChange table, so binding it puts no writing observer on a bound property) *)
 Theorem C02_growing_network_with_writing_observers_of_both_signals_consistent :
